@@ -2,6 +2,8 @@ SPECIFICATION CSpec
 CONSTANTS
   MaxE = 2
   MaxMol = 3
+  MaxSol = 2
+  MaxBelow = 1
 CONSTRAINT Bounded
 INVARIANT NonNegative Aligned
 PROPERTY Conserved ConsumesTwo Locality
